@@ -102,6 +102,12 @@ class Path:
             g = V._bool_term(goal)
         else:
             g = z3.BoolVal(bool(goal))
+        used = {o.name for o in self.obligations}
+        if name in used:
+            k = 2
+            while f"{name}#{k}" in used:
+                k += 1
+            name = f"{name}#{k}"
         self.obligations.append(Obligation(name, self.conds, g, meta, [c for _, c in self.opt]))
 
     # -- branching ---------------------------------------------------------
@@ -1216,6 +1222,8 @@ class Interp:
 
     def e_Constant(self, n, env):
         v = n.value
+        if isinstance(v, complex):
+            raise Unsupported("complex literal (complex arithmetic is not modelled)")
         if isinstance(v, float):
             return V.exact(v) if not float(v).is_integer() else Fraction(int(v), 1)
         return v
